@@ -49,7 +49,7 @@ TABLE = {k[:-1]: v for k, v in html.entities.html5.items() if k.endswith(";")}
 def drop_empty_text(tree):
     """the same projected tree without empty text nodes"""
     if isinstance(tree, list):
-        return [drop_empty_text(x) for x in tree if not (isinstance(x, dict) and isinstance(x.get("text"), str) and x["text"].strip(" \t\n\r\x0b\x0c") == "" and len(x) == 1)]
+        return [drop_empty_text(x) for x in tree if not (isinstance(x, dict) and isinstance(x.get("text"), str) and x["text"] == "" and len(x) == 1)]
     if isinstance(tree, dict):
         o = {k: drop_empty_text(v) for k, v in tree.items()}
         if o.get("children") == []:
@@ -349,8 +349,9 @@ def run(chk):
         srcs.append(t_)
         nshape += 1
     # children after a text that prints as nothing (a blank literal binding, a comment) in every kind of body
-    for first in ('{{ "" }}', "{{ ' ' }}", "<!-- c -->{{ '' }}", '{{ "" }}<!-- c -->'):
-        for rest in ("<text>{{b}}</text>", "t{{a}}", "<v/><v title=\"{{a}}\"/>"):
+    # ... and such a text as the only child (a blank literal is a text node of its own: D71)
+    for first in ('{{ "" }}', "{{ ' ' }}", "<!-- c -->{{ '' }}", '{{ "" }}<!-- c -->', "{{ '\\n' }}", "{{ ' \\t ' }}", "<!-- c -->{{ ' ' }}<!-- d -->"):
+        for rest in ("<text>{{b}}</text>", "t{{a}}", "<v/><v title=\"{{a}}\"/>", ""):
             srcs.append("<view>%s%s</view>" % (first, rest))
             srcs.append('<block wx:for="{{l}}">%s%s</block><v wx:if="{{c}}">%s%s</v><v wx:else>%s%s</v>' % (first, rest, first, rest, first, rest))
             srcs.append('<template name="t9">%s%s</template><template is="t9" data="{{a, b}}"/>' % (first, rest))
